@@ -3,6 +3,7 @@ package ack
 import (
 	"errors"
 	"fmt"
+	"sync"
 	"time"
 
 	"github.com/vx-labs/mqtt-protocol/packet"
@@ -43,6 +44,10 @@ type message struct {
 	deadline time.Time
 }
 type queue struct {
+	// mtx makes "entry table + timeout list" one unit: without it an acknowledgement or a sweep
+	// interleaved with the registration of the same key could strip the new entry's timeout or
+	// expire it at once. Callbacks run outside the lock (they register follow-up entries).
+	mtx      sync.Mutex
 	msg      *gotomic.Hash
 	timeouts expiration.List
 }
@@ -66,20 +71,21 @@ func (q *queue) Ack(prefix string, pkt packet.Packet) error {
 	switch p := pkt.(type) {
 	case Ackers:
 		k := hashKey(prefix, p.GetMessageId())
+		q.mtx.Lock()
 		v, ok := q.msg.Get(k)
 		if !ok {
+			q.mtx.Unlock()
 			return ErrWrongMID
 		}
 		msg := v.(message)
 		if msg.state != pkt.Type() {
+			q.mtx.Unlock()
 			// not the packet this exchange is waiting for: the entry stays in flight
 			return fmt.Errorf("unexpected packet type: wanted %v, got %v", msg.state, pkt.Type())
 		}
-		if _, ok = q.msg.Delete(k); !ok {
-			// resolved concurrently
-			return ErrWrongMID
-		}
+		q.msg.Delete(k)
 		q.timeouts.Delete(k, msg.deadline)
+		q.mtx.Unlock()
 		msg.callback(false, msg.pkt, pkt)
 		return nil
 	default:
@@ -87,16 +93,23 @@ func (q *queue) Ack(prefix string, pkt packet.Packet) error {
 	}
 }
 func (q *queue) Expire(now time.Time) {
+	q.mtx.Lock()
+	expired := []message{}
 	for _, v := range q.timeouts.Expire(now) {
 		key := v.(gotomic.StringKey)
 		m, ok := q.msg.Delete(key)
 		if ok {
-			msg := m.(message)
-			msg.callback(true, msg.pkt, nil)
+			expired = append(expired, m.(message))
 		}
+	}
+	q.mtx.Unlock()
+	for _, msg := range expired {
+		msg.callback(true, msg.pkt, nil)
 	}
 }
 func (q *queue) push(k gotomic.Hashable, msg message) error {
+	q.mtx.Lock()
+	defer q.mtx.Unlock()
 	if !q.msg.PutIfMissing(k, msg) {
 		return ErrDupMID
 	}
